@@ -116,8 +116,8 @@ impl TransportVisitor for V {
             menu.push((2, 0, 0, 0)); // connect
             menu.push((3, 0, 0, 0)); // send
             menu.push((4, 0, 0, 0)); // recv
-            for oi in [0usize, 1, 2, 3, 4] {
-                menu.push((9, 0, 0, oi)); // REQUEST, RESPONSE, RST, SHUTDOWN, RW
+            for oi in [0usize, 1, 2, 3, 4, 9, 10] {
+                menu.push((9, 0, 0, oi)); // REQUEST, RESPONSE, RST, SHUTDOWN, RW, SHUTDOWN with one hint only
             }
         }
         if !life {
@@ -326,7 +326,13 @@ impl TransportVisitor for V {
                 _ => {
                     // A peer packet arrives and is polled.
                     let foreign = kind == 10;
-                    let op = ops[arg];
+                    // arg 9 / 10: a SHUTDOWN whose hints name only one direction (receive resp.
+                    // send): still the peer's shutdown of this connection.
+                    let (op, shut_flags) = match arg {
+                        9 => (OP_SHUTDOWN, 1u32),
+                        10 => (OP_SHUTDOWN, 2),
+                        _ => (ops[arg], 3),
+                    };
                     let dst_cid = if foreign { GUEST_CID + 1 } else { GUEST_CID };
                     let mut payload: Vec<u8> = vec![];
                     let (p_rx, p_tx, p_pos, seen_d_fwd) = {
@@ -344,7 +350,7 @@ impl TransportVisitor for V {
                         }
                         payload = vec![cbyte(peer, lport, p_pos), cbyte(peer, lport, p_pos + 1)];
                     }
-                    let h = Hdr { src_cid: peer.cid, dst_cid, src_port: peer.port, dst_port: lport, len: payload.len() as u32, typ: 1, op, flags: if op == OP_SHUTDOWN { 3 } else { 0 }, buf_alloc: PEER_BUF, fwd_cnt: p_rx };
+                    let h = Hdr { src_cid: peer.cid, dst_cid, src_port: peer.port, dst_port: lport, len: payload.len() as u32, typ: 1, op, flags: if op == OP_SHUTDOWN { shut_flags } else { 0 }, buf_alloc: PEER_BUF, fwd_cnt: p_rx };
                     if dev.deliver(0, &h, &payload).is_none() {
                         viol("no-receive-buffer", "no receive buffer posted for an incoming packet".into());
                         break;
